@@ -2,6 +2,7 @@
 import re
 from ..engines import e4_hashorder as e4
 from ..lib import typewalk
+from . import C03
 from ..lib.facts import is_callee, callee_fn, sp_str
 from ..lib.trace import Tracer, canon, strip, walk
 
@@ -11,12 +12,30 @@ LEVEL_TEXT = ("Determinism and isolation rules on the resolved program: (E4) eve
               "callers; (E4.g) the crate has no global or thread-local mutable state; (I) a loaded file is immutable: every execution entry "
               "point takes &self, ast::File/Functions/Variables/ExecutionConfig contain no interior mutability in their transitive field "
               "types, and fields of ast::* types are written only by the parser and the checker — never by the interpreters; (P) all "
-              "per-execution state is created inside execute_*_into; the caller's globals are wrapped, not modified.")
+              "per-execution state is created inside execute_*_into; the caller's globals are wrapped, not modified; (T) the library reads no "
+              "ambient input (clock, environment, process/thread identity, random source) and gives no query cursor a timeout or other "
+              "restriction.")
 LEVEL_NOTE = ("Not decided: bit-identical results across processes as an observed fact; determinism and thread-safety of tree-sitter and regex "
               "themselves.  Known limitation recorded in DESIGN.md: syntax-node ids are address-derived, so the iteration order of a *set of "
               "syntax nodes* can differ between two parses of the same source (value level, not decidable by these rules).")
 
 WITNESSES = ["W1"]
+
+
+AMBIENT = (r"^std::time::(Instant|SystemTime)::(now|elapsed)$", r"^std::env::(var|var_os|vars|vars_os|args|args_os|current_dir|temp_dir)$",
+           r"^std::process::id$", r"^std::thread::(current|sleep|spawn)$", r"^std::hash::RandomState::new$", r"^std::collections::hash_map::RandomState::new$",
+           r"^rand::", r"^std::thread::ThreadId")
+
+
+def ambient_reads(fns):
+    out = []
+    for f in sorted(fns, key=lambda x: x.id):
+        if f.body is None:
+            continue
+        for b, t in f.body.calls():
+            if is_callee(t, *AMBIENT):
+                out.append((f, t))
+    return out
 
 
 def run(prog, rep):
@@ -78,4 +97,14 @@ def run(prog, rep):
         need |= {"tsg::execution::strict::ScopedVariables::new"} if "strict" in f.name else {"tsg::execution::lazy::store::LazyStore::new", "tsg::execution::lazy::store::LazyScopedVariables::new", "tsg::execution::lazy::statements::LazyGraph::new", "std::collections::HashMap::new"}
         rep.check(need <= ctors, "C12.P", "%s :: fresh state" % f.id, f.loc(), "per-execution state constructed here: %s" % sorted(x.rsplit("::", 2)[-2] for x in need),
                   "per-execution state is not all constructed inside %s (missing %s)" % (f.name, sorted(need - ctors)))
+    # T: nothing ambient (clock, environment, process/thread identity, query timeouts) is read by the library
+    rep.rule("C12.T", "the library reads no ambient input: no clock, environment variable, process/thread identity or random source, and no query cursor "
+                      "is given a timeout or any other restriction (a timeout makes the set of reported matches depend on machine load)")
+    amb = ambient_reads(prog.lib.fns.values())
+    for f, t in amb:
+        rep.violation("C12.T", "%s :: %s" % (f.id, callee_fn(t)["def"]), sp_str(t["sp"]), "the result of an execution can depend on %s" % callee_fn(t)["def"])
+    rep.control("C12.T", prog.control is not None and {callee_fn(t)["def"].rsplit("::", 2)[-2] + "::" + callee_fn(t)["def"].rsplit("::", 1)[-1] for _f, t in ambient_reads(prog.control.fns.values())} >= {"Instant::now", "env::var", "process::id"},
+                "planted Instant::now / env::var / process::id calls are reported")
+    C03.unrestricted_cursors(prog, rep, "C12.T")
+    rep.ok("C12.T", "library bodies scanned", "", "%d bodies, %d ambient reads" % (sum(1 for f in prog.lib.fns.values() if f.body is not None), len(amb)))
     rep.trust("tree-sitter query execution and regex matching are deterministic functions of their inputs")
